@@ -481,6 +481,12 @@ def locale_language_pairing_rule(ctx, chk, rule):
         raise AnalysisError(rule, "_load_data: the loop that loads and yields the locales was not found")
     lp = loops[0]
     mp = lp.iter.func.value.id
+    mps = {mp}              # the mapping and the locals it is copied from (`locale_dict = built` after a written-out helper)
+    for _ in range(3):
+        for n in iter_own_nodes(f.node):
+            if isinstance(n, ast.Assign) and len(n.targets) == 1 and isinstance(n.targets[0], ast.Name) and n.targets[0].id in mps \
+                    and isinstance(n.value, ast.Name):
+                mps.add(n.value.id)
     n_pairs = 0
 
     def fail(node, what, why):
@@ -491,7 +497,7 @@ def locale_language_pairing_rule(ctx, chk, rule):
         at = next(iter(g.nodes_of(s)), None)
         # (a) mapping[name] = value
         if isinstance(s, ast.Assign) and len(s.targets) == 1 and isinstance(s.targets[0], ast.Subscript) \
-                and isinstance(s.targets[0].value, ast.Name) and s.targets[0].value.id == mp:
+                and isinstance(s.targets[0].value, ast.Name) and s.targets[0].value.id in mps:
             n_pairs += 1
             key_e, val_e = s.targets[0].slice, s.value
             what = "line %d: the pair stored for a locale name keeps the name and its language together" % s.lineno
@@ -510,13 +516,13 @@ def locale_language_pairing_rule(ctx, chk, rule):
         calls = [c for c in ast.walk(s) if isinstance(c, ast.Call)]
         for c in calls:
             fn = ast.unparse(c.func)
-            is_upd = fn == mp + ".update"
+            is_upd = fn in {m_ + ".update" for m_ in mps}
             is_new = fn.split(".")[-1] in ("OrderedDict", "dict") and isinstance(s, ast.Assign) and len(s.targets) == 1 \
-                and isinstance(s.targets[0], ast.Name) and s.targets[0].id == mp and c is s.value
+                and isinstance(s.targets[0], ast.Name) and s.targets[0].id in mps and c is s.value
             if not (is_upd or is_new) or not c.args:
                 continue
             src = c.args[0]
-            if isinstance(src, ast.Call) and ast.unparse(src.func) == "sorted" and src.args and ast.unparse(src.args[0]) == mp + ".items()":
+            if isinstance(src, ast.Call) and ast.unparse(src.func) == "sorted" and src.args and ast.unparse(src.args[0]) in {m_ + ".items()" for m_ in mps}:
                 continue        # re-ordering of the pairs already in the mapping
             n_pairs += 1
             what = "line %d: the pairs added to the locale mapping keep each name and its language together" % s.lineno
